@@ -36,6 +36,7 @@ type spvAssn struct {
 	Confs  []spvConf `json:"confs"`
 	Auds   []string  `json:"auds"`
 	Time   string    `json:"time"`
+	Cond   string    `json:"cond"` // Conditions window: in | out
 }
 type spvVec struct {
 	Prop string `json:"prop"`
@@ -285,7 +286,7 @@ func spvConcretise(v *spvVec, now time.Time, rng *rand.Rand) *spvCase {
 		}
 		as := AssnSpec{ID: id, IssueInstant: inst(a.Time, 0, -time.Hour), Issuer: concStr(a.Iss, idpEntityID, rng),
 			NameID: sp(fmt.Sprintf("user%d@example.com", k+1)), Confs: confs,
-			NotBefore: tIn(-time.Minute), NotOnOrAfter: tIn(time.Minute), Audiences: auds,
+			NotBefore: inst(a.Cond, -time.Minute, -2*time.Hour), NotOnOrAfter: inst(a.Cond, time.Minute, -time.Hour), Audiences: auds,
 			AuthnInstant: tIn(0), SessionIndex: "s1", Attrs: []AttrSpec{{Name: "uid", Values: []string{fmt.Sprintf("u%d", k+1)}}}}
 		if a.Signed {
 			as.SignWith = key("idp1")
